@@ -37,7 +37,7 @@ Proof.
     (destruct fuel as [|f]; [cbn in Hf; lia|]); cbn [elisp_hex_loop]; cbn [app] in Ha.
   - destruct rest as [|b rest].
     + step. exists r0. unfold ret. cbn [hfold fold_left]. auto.
-    + step. assert (Hb : decode_hex_val b = None) by (destruct Hr as [->|[->| ->]]; reflexivity). rewrite Hb.
+    + step. assert (Hb : decode_hex_val b = None) by (delim_cases Hr; reflexivity). rewrite Hb.
       exists r0. unfold ret. cbn [hfold fold_left]. auto.
   - inversion Hd as [|? ? Hdig Hd']; subst. destruct (lower_hex_facts d Hdig) as [Hdec _].
     step. rewrite Hdec. step.
